@@ -509,13 +509,29 @@ VOCAB_KW = ['med', 'local-preference', 'community', 'large-community', 'extended
 VOCAB_VAL = ['0', '1', '255', '256', '65535', '65536', '1048576', '4294967295', '4294967296', '18446744073709551616', '-1', 'x', '1.2.3.4', '1.2.3.256', '1:1', '65536:1', '1:65536', '1:1:1', '4294967296:1:1', 'target:1:1', 'target:65536:65536', '1.2.3.4:5', '1:1.2.3.4', '0x10', '0x99', '0xc0', '0x0102', 'igp', '/25', '[', ']', '(', ')', ',', '{', '}', 'self']
 
 
+def pair_texts() -> list[str]:
+    """Every keyword of the route grammar followed by every value of the vocabulary, bare and bracketed:
+    enumerated, so that what one keyword does with one odd value is reported on every run and not only
+    when the seeded soup happens to produce it."""
+    out = []
+    for kw in VOCAB_KW:
+        for val in VOCAB_VAL:
+            if val in ('[', ']', '(', ')', ',', '{', '}'):
+                continue
+            out.append(f'route 10.0.0.0/24 next-hop 1.2.3.4 {kw} {val}')
+            out.append(f'route 10.0.0.0/24 next-hop 1.2.3.4 {kw} [ {val} ]')
+    return out
+
+
 def gen_soup(rng, n_tokens: int) -> str:
     pfx = rng.choice(['10.0.0.0/24', '10.0.0.0/24', '::/0', '0.0.0.0/0', '10.0.0.0/33', '10.0.0.0'])
     toks = ['route', pfx]
     if rng.random() < 0.8:
         # the next hop of the family of the prefix: a route whose next hop is of the other family is a
         # question of what was negotiated (RFC 8950), not of the text
-        toks += ['next-hop', rng.choice(['::1', 'self'] if ':' in pfx else ['1.2.3.4', '1.2.3.4', 'self'])]
+        # (`self` only for IPv4: the sessions of the rig run over IPv4, and `next-hop self` of the other
+        # family is refused when the route is resolved for the session, which is not the parser's doing)
+        toks += ['next-hop', rng.choice(['::1'] if ':' in pfx else ['1.2.3.4', '1.2.3.4', 'self'])]
     for _ in range(n_tokens):
         toks.append(rng.choice(VOCAB_KW) if rng.random() < 0.45 else rng.choice(VOCAB_VAL))
     return ' '.join(toks)
@@ -592,18 +608,23 @@ def junk_outcome(rig: fr.Rig, kind: str, text: str) -> tuple[str, str]:
 
 
 def shrink_tokens(rig: fr.Rig, kind: str, text: str, fault: str) -> str:
+    """Drop runs of 4, 3, 2, 1 tokens (a keyword goes with its value, a list with its brackets) while
+    the verdict stays the same."""
     toks = text.split(' ')
     keep = 2 if kind == 'route' else 1
-    i = len(toks) - 1
     tries = 0
-    while i >= keep:
-        tries += 1
-        if fault == 'hangs' and tries > 6:
-            break
-        cand = toks[:i] + toks[i + 1 :]
-        if junk_outcome(rig, kind, ' '.join(cand))[0] == fault:
-            toks = cand
-        i -= 1
+    for width in (4, 3, 2, 1):
+        i = len(toks) - width
+        while i >= keep:
+            tries += 1
+            if fault == 'hangs' and tries > 8:
+                return ' '.join(toks)
+            cand = toks[:i] + toks[i + width :]
+            if junk_outcome(rig, kind, ' '.join(cand))[0] == fault:
+                toks = cand
+                i = min(i, len(toks) - width)
+            else:
+                i -= 1
     return ' '.join(toks)
 
 
@@ -711,7 +732,7 @@ def run(ctx: Ctx) -> None:
         'boundary values {0, 1, limit-2, limit-1, limit, limit+1, 2*limit, 256*limit} + {2^8, 2^12, 2^16, 2^20, 2^24, 2^32, 2^63, 2^64, 2^96, 10^30 and neighbours} '
         '+ odd value texts {negative, non-numeric, empty, hex, float, plus sign, leading zeros, unicode digit, exponent, separator}; counts around the extended-length switch, 4096 and the 65535 limit; '
         'each through Configuration.parse_route_text, API.api_*, the API command handler and (boundary subset; all in thorough) a configuration file; accepted definitions encoded and decoded on 16 session shapes. '
-        'junk: hand-written structural junk; soup: seeded random token sequences over the route grammar, failures shrunk token by token. '
+        'junk: hand-written structural junk; pairs: every keyword of the route grammar x every value of a 30-value vocabulary, bare and bracketed; soup: seeded random token sequences over the same vocabulary; failures shrunk token by token and filed under the last keyword of the shrunk text. '
         'a grid case is non-trivial when the value was accepted, fits, was encoded on all 16 shapes and both decoders returned the written value; '
         'a junk/soup case is non-trivial when it was refused with a message or accepted and encoded on every shape; distinct = (field, template, value) resp. distinct text'
     )
@@ -769,6 +790,26 @@ def run(ctx: Ctx) -> None:
         ctx.count('oracle-fail:' + verdict)
         if key not in sw.seen_fail:
             f = Failure('text-field', canon, {'kind': kind, 'text': small, 'original': text, 'stream': 'junk'}, f'"{small}": {verdict}: {junk_outcome(rig, kind, small)[1] if small != text else detail}')
+            sw.seen_fail[key] = f
+            ctx.failures.append(f)
+
+    # ---- pairs: keyword x value, enumerated --------------------------------------------------------
+    for text in pair_texts():
+        if ctx.time_left() < 12:
+            ctx.notes.append('keyword x value stream cut by the budget')
+            break
+        verdict, detail = junk_outcome(rig, 'route', text)
+        ctx.evaluations += 1
+        ctx.count('pairs-verdict:' + verdict)
+        if verdict in ('ok', 'refused'):
+            ctx.nontrivial({'pair': text})
+            continue
+        small = shrink_tokens(rig, 'route', text, verdict)
+        canon = {'field': 'structure:' + culprit('route', small), 'class': 'structure', 'session': 'all', 'fault': verdict}
+        key = json.dumps(canon, sort_keys=True)
+        ctx.count('oracle-fail:' + verdict)
+        if key not in sw.seen_fail:
+            f = Failure('text-field', canon, {'kind': 'route', 'text': small, 'original': text, 'stream': 'junk'}, f'"{small}": {verdict}: {junk_outcome(rig, "route", small)[1]}')
             sw.seen_fail[key] = f
             ctx.failures.append(f)
 
